@@ -685,7 +685,9 @@ def mon_c10(ex, info, col):
     # logs: ABSENCE and zero cost
     p = ex.project
     n = len(p.cost_list)
-    for k in range(n):
+    # (results whose logs were reversed - by backward_simulate or by hand - are not on the time axis of the list given to the run: for them the stored-list clause below speaks)
+    logs_reversed = bool(ex.opts.get("post_reverse")) or (bool(ex.opts.get("backward")) and bool(ex.opts.get("rev", True)))
+    for k in (range(n) if not logs_reversed else ()):
         pa = k in absn
         if pa:
             for name, lst in (("project", p.cost_list), ("organization", p.organization.cost_list)):
@@ -705,6 +707,17 @@ def mon_c10(ex, info, col):
                     out.append(V("C10", "C10:absent-resource-not-logged-ABSENCE" + (":project-wide" if pa else ":individual"), ex, {"k": k, "resource": rn, "state": int(r.state_record_list[k])}))
                 if k < len(r.cost_list) and r.cost_list[k] != 0.0:
                     out.append(V("C10", "C10:absent-resource-charged" + (":project-wide" if pa else ":individual"), ex, {"k": k, "resource": rn, "cost": r.cost_list[k]}))
+    # the list the project keeps (what remove_absence_time_list() will delete) and the logs are on the same time axis, however the run was made
+    # (forward, backward with or without reversal, reversed by hand): every in-range entry names a step at which everybody is logged ABSENCE at no cost
+    if not ex.opts.get("post_insert") and not ex.opts.get("post_remove") and ex.error is None:
+        for k in sorted(set(p.absence_time_list)):
+            if not isinstance(k, int) or k < 0 or k >= n:
+                continue
+            col.checks["c10.stored-list-vs-logs"] += 1
+            bad = [rn for rn in list(info.workers) + list(info.facilities) if k < len(ex.m.byname[rn].state_record_list) and int(ex.m.byname[rn].state_record_list[k]) != S.R_ABSENCE]
+            if bad or p.cost_list[k] != 0.0:
+                out.append(V("C10", "C10:stored-absence-list-names-a-step-that-is-not-an-absence-step-in-the-logs", ex,
+                             {"k": k, "stored_list": list(p.absence_time_list), "resources_not_ABSENCE": bad[:4], "project_cost": p.cost_list[k]}))
     return out
 
 
